@@ -57,6 +57,14 @@ def make_cases(tier, seed):
                         lb = [[a, r + fr * hR, z + fz * hZ, w] for a, r, z, w in lobes]
                         cases.append({"id": len(cases) + 1, "family": name, "lobes": lb, "nR": nR, "nZ": nZ, "sign": sign, "psinorm_sol": sol,
                                       "nx_inter_sep": 1 if name in ("ldn", "udn", "ldn_tilt") else 0})
+    # the same configurations displaced by +-0.9 m in Z together with their domain and wall: nothing in the property refers to Z = 0
+    # (seed C19_lower_upper_by_z_sign decided lower / upper double null by the sign of the primary X-point's Z)
+    for name in ("ldn", "udn", "lsn", "usn", "cdn"):
+        for zoff in (0.9, -0.9):
+            for sign in (1, -1):
+                nR, nZ = res[0]
+                cases.append({"id": len(cases) + 1, "family": name + "_zoff", "lobes": [list(lb) for lb in BASE[name]], "nR": nR, "nZ": nZ, "sign": sign, "zoff": zoff,
+                              "psinorm_sol": SOLS[name][1], "nx_inter_sep": 1 if name in ("ldn", "udn") else 0})
     # a single critical point of a pure quadratic (which the spline reproduces exactly) at exact fractions of a cell, including the
     # mid-lines where two or four grid nodes are equally close: find_critical only, no equilibrium is built
     for (nR, nZ) in res[:2]:
